@@ -214,7 +214,12 @@ fn doc_rec(t: &Tree, style: &Style, rng: &mut Rng, st: &mut DocState, above: [i6
                 String::new()
             } else {
                 st.emitted[pi].insert(info.clone());
-                info.to_string()
+                // some names carry characters that need escaping in both formats
+                match iset % 4 {
+                    2 => format!("{info} \"quoted\" name"),
+                    3 => format!("{info}\\back slash"),
+                    _ => info.to_string(),
+                }
             };
             let mut out_kids: Vec<DKid> = kids
                 .iter()
